@@ -199,6 +199,17 @@ fn record(seed: u64, thorough: bool, shards: usize, prefix: &str) -> Value {
                 emit(Style::new().fg_color(Some(Color::Ansi(*f))).bg_color(Some(Color::Ansi(*b))));
             }
         }
+        // every named colour with every single effect and every pair of effects (an emulation - brightness shown as bold, an
+        // effect shown by exchanging colours - must hold whatever else the style carries)
+        for f in ANSI.iter() {
+            for (i, (_, e1)) in EFFECTS.iter().enumerate() {
+                emit(Style::new().fg_color(Some(Color::Ansi(*f))).effects(*e1));
+                emit(Style::new().bg_color(Some(Color::Ansi(*f))).effects(*e1));
+                for (_, e2) in EFFECTS.iter().skip(i + 1) {
+                    emit(Style::new().fg_color(Some(Color::Ansi(*f))).effects(*e1 | *e2));
+                }
+            }
+        }
         for (k, c) in cols.iter().enumerate() {
             if thorough || k % 5 == (seed % 5) as usize {
                 emit(Style::new().fg_color(Some(*c)).underline_color(Some(*c)).underline());
